@@ -104,6 +104,76 @@ def gen_ghosts(rng, names, k):
         else: add("".join(rng.choice("abxyz") for _ in range(rng.choice(lens))))
     return out
 
+def tiny_names(rng, n):
+    toks = rng.choice([["a", "b", "_"], ["ab", "ba", "x"], ["a", "b"], ["a", "b", "c"], ["ab", "b", "_a"]])
+    maxl = 7 if max(len(t) for t in toks) == 1 else 4
+    names = []
+    for _ in range(40 * n):
+        if len(names) >= n: break
+        x = "".join(rng.choice(toks) for _ in range(rng.randint(1, maxl)))
+        if ok_name(x) and x not in names: names.append(x)
+    return names
+
+def gadget_names(rng, block):
+    """L contains X in its interior, M is appended after L (so X is reused from the middle of the pool),
+    and Y, the next name in byte order after X, starts with the last 1-3 letters of X."""
+    c0, c1, c2 = block
+    k = rng.randint(1, 3)
+    tail = c2 + "".join(rng.choice(block) for _ in range(k - 1))
+    X = c1 + "".join(rng.choice(c0 + c1) for _ in range(rng.randint(0, 3))) + tail
+    L = c0 + "".join(rng.choice(block + "_") for _ in range(rng.randint(1, 3))) + X + rng.choice(["", "", c0, "_" + c1])
+    M = c0 + "z" + "".join(rng.choice(block) for _ in range(rng.randint(0, 3)))
+    Y = tail + "".join(rng.choice(block + "xy") for _ in range(rng.randint(1, 5)))
+    out = [L, M, X, Y]
+    if rng.random() < 0.4: out.append(X[1:])                 # one more reuse, sorts inside the block
+    return out
+
+def chain_names(rng, n):
+    w = "".join(rng.choice(rng.choice(["abc", "abcde", "ab_", "xyzab"])) for _ in range(rng.randint(8, 16)))
+    if not w[0].isalpha(): w = "a" + w
+    L = rng.choice([2, 3, 3, 4])
+    names = []
+    for i in range(0, len(w) - L + 1):
+        x = w[i:i + L + rng.choice([0, 0, 0, 1])]
+        if ok_name(x) and x not in names: names.append(x)
+    rng.shuffle(names)
+    return names[:n]
+
+def dense_names(rng, n):
+    kind = rng.choice(["tiny", "tiny", "gadget", "gadget", "chain", "mix"])
+    names = []
+    def addall(xs):
+        for x in xs:
+            if ok_name(x) and x not in names and len(names) < n: names.append(x)
+    if kind == "tiny": addall(tiny_names(rng, n))
+    elif kind == "chain": addall(chain_names(rng, n))
+    else:
+        blocks = ["abc", "def", "ghi", "jkl", "mno"]
+        for b in rng.sample(blocks, rng.randint(1, min(4, max(1, n // 4)))): addall(gadget_names(rng, b))
+        if kind == "mix":
+            addall(["p" + x for x in tiny_names(rng, n)] if rng.random() < 0.5 else chain_names(rng, n))
+        else:
+            addall(["w" + x for x in tiny_names(rng, rng.randint(0, 4))])
+    if not names: names = ["m"]
+    rng.shuffle(names)
+    return names
+
+def gen_dense_case(rng, lo=8, hi=20):
+    decl = dense_names(rng, rng.randint(lo, hi))
+    names = compiler_order(decl)
+    methods = []
+    for nm in names:
+        args = [rng.choice(ARG_TYPES) for _ in range(rng.choice([0, 0, 0, 1, 2]))]
+        methods.append({"name": nm, "args": args, "vals": [rand_val(rng, t) for t in args]})
+    return {"methods": methods, "decl_order": decl, "fallback": rng.random() < 0.4, "ghosts": gen_ghosts(rng, names, rng.randint(3, 6)), "dense": True}
+
+def overlap_case():
+    """corpus: `balance` is reused from inside `add_balance` (not the end of the pool) and `execute`, next in
+    byte order, starts with its last letter"""
+    decl = ["execute", "balance", "add_balance", "approved"]
+    ms = [{"name": n, "args": [], "vals": []} for n in compiler_order(decl)]
+    return {"methods": ms, "decl_order": decl, "fallback": False, "ghosts": ["xecute", "dxecute", "balanc", "e", "approve"], "dense": True}
+
 def gen_case(rng, maxm):
     decl = gen_names(rng, rng.randint(1, maxm))
     names = compiler_order(decl)
@@ -185,23 +255,24 @@ def parse_entry(ir):
 
 STRUCT = {0: "pool-and-offsets-agree", 1: "pool-differs", 5: "dup-names"}
 CALL = {0: "ok", 2: "wrong-dispatch", 3: "model-not-lookup", 4: "result-bytes-differ"}
+HDR = "From SwayV Require Import Base.Util C11.Model C11.Spec C11.Judge."
 
-def run(ctx):
-    ctx.level = "proof"
-    ok, out = coq.check_props(ctx, "C11", extra_targets=["C11/Judge.vo"])
-    if not ok:
-        ctx.log(out[-3000:])
-        ctx.violation("proof", {"theorems": [o for o in ctx.obligations if not o[1]], "log": out[-2000:]}, "C11 proofs do not check", no_input=True)
-    binp, bout = rust.build("c11")
-    if binp is None:
-        ctx.violation("harness-build", {"log": bout[-4000:]}, "harness c11 does not build against /repo", no_input=True)
-        return
-    npk, maxm = (6, 8) if ctx.quick else (96, 28)
-    cases = [fixed_case(True), fixed_case(False), big_case()]
-    while len(cases) < npk:
-        cases.append(gen_case(ctx.rng, maxm))
+def observe(t):
+    logs = [x for x in (t["receipts"] if t else []) if x["k"] == "LogData"]
+    st = t.get("state", "") if t else ""
+    mrev = re.match(r"Revert\((\d+)\)", st)
+    if mrev: return "(ORevert %s)" % mrev.group(1), b"", st
+    if len(logs) >= 2 and len(logs[0]["data"]) == 16:
+        mk = int(logs[0]["data"], 16)
+        return ("OFallback" if mk == FB_MARK else "(OMethod %d)" % mk), bytes.fromhex(logs[1]["data"]), st
+    return "OOther", b"", st
+
+def evaluate(ctx, binp, cases, tag, stats):
+    """Build and run the cases, judge them in Coq.  Real violations (a failing call is known) are recorded
+    immediately; returns (ok, [tie-break records]) where a tie-break record is (key, replay) of an ABI
+    whose pool / arm offsets differ from the model."""
     base = os.path.join(ctx.work, "pkgs")
-    dirs = [sway.write_pkg(base, "c11_%d" % i, {"main.sw": contract_src(c)}, entry="main.sw") for i, c in enumerate(cases)]
+    dirs = [sway.write_pkg(base, "%s_%d" % (tag, i), {"main.sw": contract_src(c)}, entry="main.sw") for i, c in enumerate(cases)]
 
     def one(i):
         rc, o = rust.run(binp, (["--no-run"] if cases[i].get("big") else ["--ir"]) + [dirs[i]], timeout=3000)
@@ -217,17 +288,17 @@ def run(ctx):
     with cf.ThreadPoolExecutor(max_workers=NCPU) as ex:
         results = list(ex.map(one, range(len(cases))))
 
-    shards, meta = [], []
+    shards, meta, ties = [], [], []
     for i, (c, r) in enumerate(zip(cases, results)):
-        rep = {"source": contract_src(c), "status": r.get("status"), "error": (r.get("error") or "")[:600]}
+        rep = {"names": [m["name"] for m in c["methods"]], "fallback": c["fallback"], "source": contract_src(c),
+               "status": r.get("status"), "error": (r.get("error") or "")[:600]}
         key = "abi_" + hashlib.sha256(contract_src(c).encode()).hexdigest()[:12]
         if r.get("status") == "harness_error":
             ctx.violation("harness-run", {"pkg": dirs[i], "out": r.get("error")}, "harness c11 failed to run", no_input=True)
-            return
+            return False, ties
         if c.get("big"):
             try:
-                lim = coq.run_cases(ctx, "c11lim", "From SwayV Require Import Base.Util C11.Model C11.Spec C11.Judge.",
-                                    ["Eval vm_compute in (judge_limit [%s])." % ";".join(nlist(m["name"].encode()) for m in c["methods"])])[0][0][0]
+                lim = coq.run_cases(ctx, "c11lim", HDR, ["Eval vm_compute in (judge_limit [%s])." % ";".join(nlist(m["name"].encode()) for m in c["methods"])])[0][0][0]
             except RuntimeError as e:
                 ctx.violation("model-eval", {"log": str(e)[-2000:]}, "C11 judge_limit could not be evaluated", no_input=True); continue
             if lim == 6 and r.get("status") == "build_error":
@@ -247,15 +318,6 @@ def run(ctx):
         pool, offs = r["entry"]
         tests = {t["name"]: t for t in r.get("tests") or []}
         calls, cmeta = [], []
-        def observe(t):
-            logs = [x for x in (t["receipts"] if t else []) if x["k"] == "LogData"]
-            st = t.get("state", "") if t else ""
-            mrev = re.match(r"Revert\((\d+)\)", st)
-            if mrev: return "(ORevert %s)" % mrev.group(1), b"", st
-            if len(logs) >= 2 and len(logs[0]["data"]) == 16:
-                mk = int(logs[0]["data"], 16)
-                return ("OFallback" if mk == FB_MARK else "(OMethod %d)" % mk), bytes.fromhex(logs[1]["data"]), st
-            return "OOther", b"", st
         for j, m in enumerate(c["methods"]):
             o, got, st = observe(tests.get("t%d" % j))
             a = m["args"]
@@ -271,32 +333,69 @@ def run(ctx):
             nlist(pool), ("[%s]%%nat" % ";".join(str(x) for x in offs)) if offs else "[]", ";\n ".join(calls)))
         meta.append((key, rep, c, cmeta, pool, offs))
     try:
-        res = coq.run_cases(ctx, "c11", "From SwayV Require Import Base.Util C11.Model C11.Spec C11.Judge.", shards) if shards else []
+        res = coq.run_cases(ctx, tag, HDR, shards) if shards else []
     except RuntimeError as e:
         ctx.violation("model-eval", {"log": str(e)[-3000:]}, "C11 judge could not be evaluated (correspondence C11.build_pool not checked)", no_input=True)
-        return
-    shist, chist, ncalls, nabs = {}, {}, 0, 0
+        return False, ties
     for (key, rep, c, cmeta, pool, offs), rr in zip(meta, res):
         codes = rr[0]
         s0 = codes[0]
-        shist[STRUCT.get(s0, str(s0))] = shist.get(STRUCT.get(s0, str(s0)), 0) + 1
+        stats["struct"][STRUCT.get(s0, str(s0))] = stats["struct"].get(STRUCT.get(s0, str(s0)), 0) + 1
         rep = dict(rep, observed_pool=pool.decode("utf-8", "replace"), observed_arm_offsets=offs)
         if s0 == 1:
-            ctx.violation(key, dict(rep, correspondence="C11.build_pool"),
-                          "the `_method_names` pool or the arm offsets of the generated __entry differ from the Coq model: theorems C11_* no longer tied to the code", no_input=True)
+            ties.append((key, rep))
         elif s0 == 5:
             ctx.violation(key, dict(rep, correspondence="C11.generator"), "generator produced duplicate method names", no_input=True)
         for (kind, nm, o, st), code in zip(cmeta, codes[1:]):
-            ncalls += 1; nabs += kind == "absent"
-            chist[CALL.get(code, str(code))] = chist.get(CALL.get(code, str(code)), 0) + 1
-            crep = dict(rep, call={"kind": kind, "name": nm, "observed": o, "state": st})
+            stats["calls"] += 1; stats["absent"] += kind == "absent"
+            stats["call"][CALL.get(code, str(code))] = stats["call"].get(CALL.get(code, str(code)), 0) + 1
+            crep = dict(rep, call={"kind": kind, "name": nm, "observed": o, "state": st}, pool_differs_from_model=(s0 == 1))
             if code == 2:
-                ctx.violation(key + "_" + nm, crep, "call naming %s method `%s` was dispatched to %s (state %s)" % (
-                    "the" if kind == "method" else "the absent", nm, o, st))
+                stats["real"] += 1
+                ctx.violation(key + "_" + nm, crep, "contract with methods %s: call naming %s method `%s` was dispatched to %s (state %s)" % (
+                    rep["names"], "the" if kind == "method" else "the absent", nm, o, st))
             elif code == 4:
+                stats["real"] += 1
                 ctx.violation(key + "_" + nm, crep, "call to `%s` reached the right target but the returned bytes differ from the echoed arguments" % nm)
             elif code == 3:
                 ctx.violation(key + "_" + nm, dict(crep, theorem="C11_dispatch_is_lookup"), "model dispatch differs from name lookup", no_input=True)
+    return True, ties
+
+def run(ctx):
+    ctx.level = "proof"
+    ok, out = coq.check_props(ctx, "C11", extra_targets=["C11/Judge.vo"])
+    if not ok:
+        ctx.log(out[-3000:])
+        ctx.violation("proof", {"theorems": [o for o in ctx.obligations if not o[1]], "log": out[-2000:]}, "C11 proofs do not check", no_input=True)
+    binp, bout = rust.build("c11")
+    if binp is None:
+        ctx.violation("harness-build", {"log": bout[-4000:]}, "harness c11 does not build against the repository under test", no_input=True)
+        return
+    npk, maxm, (dlo, dhi) = (8, 8, (8, 12)) if ctx.quick else (96, 28, (8, 20))
+    cases = [fixed_case(True), fixed_case(False), big_case(), overlap_case()]
+    while len(cases) < npk:
+        # three out of four random ABIs are of the dense kind (tiny alphabets, reuse-then-overlap gadgets, chains)
+        cases.append(gen_dense_case(ctx.rng, dlo, dhi) if len(cases) % 4 != 3 else gen_case(ctx.rng, maxm))
+    stats = {"struct": {}, "call": {}, "calls": 0, "absent": 0, "real": 0}
+    good, ties = evaluate(ctx, binp, cases, "c11", stats)
+    searched = 0
+    if good and ties and stats["real"] == 0:
+        # The pool / arm offsets differ from the model but every call made so far was dispatched correctly:
+        # the theorems no longer speak about this code.  Search for a failing call on extra ABIs with dense
+        # substring / overlap relations before giving up.
+        nsearch = 24 if ctx.quick else 64
+        ctx.log("pool differs from the model on %d ABI(s) with no mis-dispatched call: searching %d dense ABIs" % (len(ties), nsearch))
+        extra = [gen_dense_case(ctx.rng, 8, 20) for _ in range(nsearch)]
+        searched = len(extra)
+        cases += extra
+        good2, ties2 = evaluate(ctx, binp, extra, "c11s", stats)
+        ties += ties2
+    if ties and stats["real"] == 0:
+        for key, rep in ties[:5]:
+            ctx.violation(key, dict(rep, correspondence="C11.build_pool", search_abis=searched),
+                          "the `_method_names` pool or the arm offsets of the generated __entry differ from the Coq model: theorems C11_* no longer tied to the code (no mis-dispatched call found on %d extra dense ABIs)" % searched, no_input=True)
+    elif ties:
+        ctx.log("pool / arm offsets differ from the model on %d ABI(s); failing calls reported above" % len(ties))
     distinct = len({tuple(m["name"] for m in c["methods"]) for c in cases if len(c["methods"]) >= 2})
     ctx.coverage.update({
         "checker_cmd": "make -C coq C11/Props.vo C11/Judge.vo (coqc 8.16.1) + coqc vm_compute judge over harness output",
@@ -304,14 +403,15 @@ def run(ctx):
                          "props/c11.py (contract text generation, parsing of the printed IR of __entry, ABI encoding of the expected echo)",
                          "the generated Sway source of __entry is compiled by the rest of the compiler (meq/addi semantics, if-chains): validated by the in-VM calls only",
                          "argument/result integrity is C09's round trip; here validated per call, not proved"],
-        "evaluations": ncalls, "distinct_nontrivial": distinct,
+        "evaluations": stats["calls"], "distinct_nontrivial": distinct,
         "rule": "one evaluation = one in-VM contract call (a declared method, or an absent name through a second ABI cast on the same contract); distinct_nontrivial = distinct method-name lists with at least 2 methods",
-        "samples": [{"names": [m["name"] for m in c["methods"]], "fallback": c["fallback"], "absent": c["ghosts"]} for c in cases[2:5]],
-        "contracts": len(cases), "absent_name_calls": nabs, "structure_judgements": shist, "call_judgements": chist,
+        "samples": [{"names": [m["name"] for m in c["methods"]], "fallback": c["fallback"], "absent": c["ghosts"]} for c in cases[3:7]],
+        "contracts": len(cases), "dense_contracts": sum(1 for c in cases if c.get("dense")), "search_contracts": searched,
+        "absent_name_calls": stats["absent"], "structure_judgements": stats["struct"], "call_judgements": stats["call"],
         "methods_per_contract": sorted(len(c["methods"]) for c in cases),
-        "pool_reuse_contracts": sum(1 for c in cases if len("".join(m["name"] for m in c["methods"])) > 0 and any(
+        "pool_reuse_contracts": sum(1 for c in cases if any(
             m["name"] in "".join(x["name"] for x in c["methods"][:i]) for i, m in enumerate(c["methods"]) if i)),
-        "explanation": "Theorems (all method-name lists, all called names): every arm of the generated entry compares against its own method's name (loop invariant of the append-or-reuse pool), dispatch returns Method i exactly when the i-th name is the called name (given distinct names, which the compiler enforces), otherwise the fallback or revert 123. The pool string and the arm offsets are read from the compiler's IR and compared exactly with the model.",
+        "explanation": "Theorems (all method-name lists, all called names): every arm of the generated entry compares against its own method's name (loop invariant of the append-or-reuse pool), dispatch returns Method i exactly when the i-th name is the called name (given distinct names, which the compiler enforces), otherwise the fallback or revert 123. The pool string and the arm offsets are read from the compiler's IR and compared exactly with the model; most generated ABIs have dense substring / overlap relations between names (tiny alphabets, names reused from the middle of the pool followed by names starting with their last letters, suffix/prefix chains). If the tie breaks without a failing call, extra dense ABIs are searched.",
     })
     ctx.assumptions += ["model = code is established by exact comparison of the pool and arm offsets on the generated ABIs only",
                         "argument and result integrity inherits C09 (validated here on the echoed calls, not proved)"]
